@@ -52,7 +52,6 @@ func runC17HTTP(r *Run, rng *Rng, poolSize int) {
 	if err != nil {
 		panic(err)
 	}
-	defer li.Abandon()
 	root := makeCA(rng, "c17 root", nil)
 	if err := li.Log.SetRootsFromPEM(context.Background(), pemOf(root)); err != nil {
 		panic(err)
@@ -60,7 +59,21 @@ func runC17HTTP(r *Run, rng *Rng, poolSize int) {
 	ctx, cancel := context.WithCancel(context.Background())
 	defer cancel()
 	seqDone := make(chan error, 1)
-	go func() { seqDone <- li.Log.RunSequencer(ctx, 2500*time.Millisecond) }()
+	seqFinished := make(chan struct{})
+	go func() {
+		err := li.Log.RunSequencer(ctx, 2500*time.Millisecond)
+		close(seqFinished)
+		seqDone <- err
+	}()
+	defer func() {
+		// the cache is closed only once the sequencer loop has returned
+		cancel()
+		select {
+		case <-seqFinished:
+		case <-time.After(60 * time.Second):
+		}
+		li.Abandon()
+	}()
 	h := li.Log.Handler()
 	type res struct {
 		code  int
